@@ -11,3 +11,5 @@ def check(ck):
     ck.run(H.check_update_protocol, ck, "C03.R3")
     ck.run(H.check_descent_complete, ck, "C03.R4")
     ck.run(H.check_definition_order_independence, ck, "C03.R5")
+    # definition order again: what a locked cluster freezes is the version as of the last definition (D55)
+    ck.run(H.check_locked_freezes_last_definition, ck, "C03.R6")
